@@ -643,10 +643,34 @@ pub fn case(tier: &str, seed: u64, case: u64) -> CaseResult {
 				if let Some(v) = vs.first() {
 					let key = v[0].as_str().unwrap_or("").to_string();
 					let what = v[1].as_str().unwrap_or("").to_string();
+					// minimise the schedule: fewer arbitrary decisions, same violation
+					let recorded: Vec<u32> = serde_json::from_value(r["choices"].clone()).unwrap_or_default();
+					let mut trial = 0;
+					let minimal = crate::sim::minimise_choices(
+						&recorded,
+						|cand| {
+							trial += 1;
+							match run_forked(&world, &plan, &probes, sseed, Some(cand.to_vec()), &format!("sched-c{}min{}", case, trial), &base) {
+								Ok(r2) => r2["violations"].as_array().map(|a| a.iter().any(|x| x[0].as_str() == Some(key.as_str()))).unwrap_or(false),
+								Err(_) => false,
+							}
+						},
+						40,
+					);
+					let nonzero = |c: &[u32]| c.iter().filter(|x| **x != 0).count();
 					res.violations.push(Violation {
 						key: format!("C17:{}", key),
-						what: format!("{} [plan {} schedule seed {}; {} scheduling points, {} switches]", what, pi, sseed, r["points"], r["switches"]),
-						replay: json!({"engine": "schedsim", "property": "C17", "case_seed": seed, "long": long, "plan": plan_json(&plan), "sched_seed": sseed, "choices": r["choices"], "trace_tail": r["trace_tail"]}),
+						what: format!(
+							"{} [plan {} schedule seed {}; {} scheduling points, {} switches; schedule minimised from {} to {} forced decisions]",
+							what,
+							pi,
+							sseed,
+							r["points"],
+							r["switches"],
+							nonzero(&recorded),
+							nonzero(&minimal)
+						),
+						replay: json!({"engine": "schedsim", "property": "C17", "case_seed": seed, "long": long, "plan": plan_json(&plan), "sched_seed": sseed, "choices": minimal, "recorded_choices": recorded.len(), "trace_tail": r["trace_tail"]}),
 					});
 					let _ = std::fs::remove_dir_all(&base);
 					break 'outer;
